@@ -73,11 +73,9 @@ def applyThresholdProb (b : BinType) (p : XR) (pu : Option XR) : Option XR :=
   match b with
   | .below | .belowEq => some p
   | .above | .aboveEq => some (.fin 1 - p)
-  | .within | .withinEq => pu.map fun pu => pu - p
-  -- the code tests `re.compile("within").match(bin_type)`, which is anchored at the start of
-  -- the string: "=within" and "=within=" fall through and return the array unchanged.  Every
-  -- caller rejects the within family before calling, so this is unreachable from the CLI.
-  | .eqWithin | .eqWithinEq => pu.map fun _ => p
+  -- (since 94ea3f0 all four within types take this branch; before, `re.compile("within").match`
+  -- was anchored at the start of the string and "=within" / "=within=" returned p unchanged)
+  | .within | .withinEq | .eqWithin | .eqWithinEq => pu.map fun pu => pu - p
 
 /-- the interval `get_intervals` builds from one (lower, upper) threshold pair -/
 def intervalOf (b : BinType) (t u : XR) : Interval :=
